@@ -48,6 +48,9 @@ CHECKS = {
  'C19': dict(level='model_checking', technique='symbolic execution (z3) of each message builder followed by the other end\'s real parser over symbolic values, symbolic characters and case bits (sre-semantics regex model); framing with a nondeterministic socket stub and symbolic end-of-stream position, unwinding assertion for termination',
              text='Calls (38 x 4 seats x case bits x alert suffixes), cards (52 x 4 x 2 notations x case bits), board headers (1..9999), hands (0..4 cards all shapes; 13-card shapes with symbolic ranks; own and dummy messages), connection request and admission replies (team text symbolic) are built by one end\'s real code and parsed by the other end\'s real code to the original value. Framing: <= 2 messages of <= 4 symbolic bytes are received intact and in order; at every end-of-stream position the receiver raises within remaining+2 recv calls (a looping receiver trips the unwinding assertion and is replayed on a counting socket).',
              note='Trusted: interpreter, regex model (ASCII case folding for symbolic characters), z3. Quick tier samples 16 of the 560 13-card shapes.', ref='§4 C19'),
+ 'C12': dict(level='model_checking', replay_py='python3-vt', technique='symbolic execution (z3) of JsonLogWriter -> (json layer stubbed by its contract, framing parsed by the real json) -> published schema -> JsonParser on a symbolic record inside lists of 0..3 records; field-and-type comparison',
+             text='Every feasible path of the real writer and the real parser over a fully symbolic record (seats, vulnerability, contract incl. passed out and all doubling states, 52-bit deal, auction, 0/1/2/13 tricks, scores, names with unconstrained code points, optional dda) at every position of lists of up to 3 records: the text is one JSON document, validates against the schema read from the repository, and every BoardLog/BoardSetting field equals what was written with the library\'s value types.',
+             note='Assumes json.loads(json.dumps(d)) == d; call/card/contract text codecs are replaced by opaque tokens (their inverses are C15). Replay runs the real writer, real json, jsonschema and the real parser.', ref='§4 C12'),
 }
 
 
@@ -64,7 +67,7 @@ def main():
                 'quick_cmd': f'python3-vt tools/check.py {pid} quick',
                 'thorough_cmd': f'python3-vt tools/check.py {pid} thorough',
                 'evidence_file': f'/verif/evidence/{pid}.json',
-                'replay_cmd_template': f'VERIF_REPO=/repo /venv/bin/python replay/replay.py {pid} {{path}}',
+                'replay_cmd_template': f'VERIF_REPO=/repo {c.get("replay_py", "/venv/bin/python")} replay/replay.py {pid} {{path}}',
                 'engine': c.get('engine', 'symex'),
                 'level_claimed': {'category': c['level'], 'text': c['text'], 'design_ref': c['ref']},
                 'level_note': c['note'],
